@@ -509,6 +509,19 @@ func (b *broker) syncUnsubscribe(subscriber *wamp.Session, msg *wamp.Unsubscribe
 		return
 	}
 
+	// A session can only unsubscribe from a subscription that it holds.
+	if _, ok = sub.subscribers[subscriber]; !ok {
+		b.trySend(subscriber, &wamp.Error{
+			Type:    msg.MessageType(),
+			Request: msg.Request,
+			Error:   wamp.ErrNoSuchSubscription,
+			Details: wamp.Dict{},
+		})
+		b.log.Println("Error unsubscribing: session", subscriber,
+			"is not subscribed to", subID)
+		return
+	}
+
 	// Remove subscribed session from subscription.
 	delete(sub.subscribers, subscriber)
 
